@@ -398,7 +398,7 @@ fn gen_tree(rng: &mut Rng, depth: u32, huge: bool, raw: bool) -> T {
                 .collect();
             if rng.chance(1, 12) {
                 // a finite factor far outside of the grid, as the last flex child
-                if let Some(c) = cs.iter_mut().rev().find(|c| matches!(c.flex, Fac::Pos(..))) {
+                if let Some(c) = cs.iter_mut().rev().find(|c| matches!(c.flex, Fac::Pos(..) | Fac::Raw(false, 1.., _))) {
                     c.flex = Fac::Big;
                 }
             }
@@ -467,13 +467,16 @@ fn has_flex_factor(t: &T) -> bool {
         _ => false,
     }
 }
-/// a Dynamic directly (or through views that share the layout node) inside a Dynamic: rendered in a
-/// child process, the pinned code recursed forever there
+/// a Dynamic / cached view directly (or through views that share the layout node) inside another one:
+/// tried in a child process first, the pinned code recursed forever there (`Tag` stands for the
+/// cached `ref` view the JSON route may use for it)
 fn dyn_in_dyn(t: &T, under: bool) -> bool {
     match t {
         T::Dyn(_, a, b) => under || dyn_in_dyn(a, true) || dyn_in_dyn(b, true),
+        T::Tag(c) => under || dyn_in_dyn(c, true),
+        T::None_ => under, // the JSON route may spell it as a `ref` that misses the cache
         T::Frame(c) => dyn_in_dyn(c, under),
-        T::Tag(c) | T::Cont(.., c) => dyn_in_dyn(c, false),
+        T::Cont(.., c) => dyn_in_dyn(c, false),
         T::Flex(_, _, cs) => cs.iter().any(|c| dyn_in_dyn(&c.view, false)),
         _ => false,
     }
@@ -1281,6 +1284,30 @@ fn survives_in_child(f: impl FnOnce()) -> bool {
     }
 }
 
+/// watchdog: a case that runs longer than 60 s is reported on stderr and ends the harness
+static mut CURRENT: [u8; 4096] = [0; 4096];
+static mut CURRENT_LEN: usize = 0;
+extern "C" fn on_alarm(_sig: libc::c_int) {
+    unsafe {
+        let head = b"C10 harness: case does not finish within 60 s: ";
+        libc::write(2, head.as_ptr() as *const libc::c_void, head.len());
+        let cur = &raw const CURRENT;
+        libc::write(2, cur as *const libc::c_void, CURRENT_LEN);
+        libc::write(2, b"\n".as_ptr() as *const libc::c_void, 1);
+        libc::_exit(3);
+    }
+}
+fn watchdog(case_text: &str) {
+    unsafe {
+        let bytes = case_text.as_bytes();
+        let n = bytes.len().min(4096);
+        let cur = &raw mut CURRENT;
+        (&mut (*cur))[..n].copy_from_slice(&bytes[..n]);
+        CURRENT_LEN = n;
+        libc::alarm(60);
+    }
+}
+
 struct Runner {
     out: Out,
     sample_rng: Rng,
@@ -1301,6 +1328,7 @@ impl Runner {
             return;
         }
         let env = Env { probes: Default::default(), trace: Default::default() };
+        watchdog(input["model_request"].as_str().unwrap_or(""));
         if std::env::var("C10_TRACE").is_ok() {
             eprintln!("{}", input["model_request"]);
         }
@@ -1326,9 +1354,11 @@ impl Runner {
                 return;
             }
         };
-        let nested_dyn = dyn_in_dyn(&case.tree, false);
-        if nested_dyn {
-            self.out.hist("nested-dynamic(child process)");
+        // cases that made some version of the code loop (nearly) forever or overflow the stack are
+        // tried in a child process first, so that the failure is reported with its input
+        let risky = dyn_in_dyn(&case.tree, false) || case.ct[2] >= 4096 || case.ct[3] >= 4096;
+        if risky {
+            self.out.hist("tried-in-child-process-first");
             let mut r = self.sample_rng.clone();
             let alive = survives_in_child(|| {
                 let _ = guarded(|| exec(case, &view, &env, &mut r));
@@ -1436,6 +1466,11 @@ fn corner_cases() -> Vec<Case> {
         v.push(Case { glyphs: g, ..base(t.clone(), [0, 0, 5, 10], (5, 10)) });
         v.push(Case { glyphs: g, ..base(T::Flex(false, 0, vec![fc(Fac::None, Al::S, false, t)]), [0, 0, m, m], (5, 10)) });
     }
+    for g in [true, false] {
+        let t = T::Text(vec![TC::Ch(Ch::Nl), TC::Glyph(m, 1, vec![Ch::W(1)]), TC::Ch(Ch::W(1)), TC::Ch(Ch::W(1)), TC::Glyph(m - 1, 2, vec![Ch::W(1)]), TC::Img(37 * 3, 15 * 2)], true);
+        v.push(Case { glyphs: g, ..base(t.clone(), [0, 0, 5, 3], (5, 3)) });
+        v.push(Case { glyphs: g, ..base(T::Flex(true, 1, vec![fc(Fac::Pos(4, 4), Al::C, true, t)]), [0, 0, 9, 3], (5, 10)) });
+    }
     for e in [1usize << 32, 1 << 63, m] {
         v.push(base(T::Flex(true, 3, vec![fc(Fac::None, Al::S, true, T::Fill), fc(Fac::None, Al::E, true, T::Fill)]), [0, 0, e, e], (4, 6)));
         v.push(base(T::Flex(false, 5, vec![fc(Fac::None, Al::S, true, probe(e, e)), fc(Fac::None, Al::C, false, T::Fill), fc(Fac::None, Al::C, false, T::Bar(false))]), [0, 0, e, e], (4, 6)));
@@ -1483,6 +1518,9 @@ fn main() {
     if std::env::var("C10_TRACE").is_err() {
         verif_harness::silence_panics();
     }
+    unsafe {
+        libc::signal(libc::SIGALRM, on_alarm as *const () as libc::sighandler_t);
+    }
     let mut rng = Rng::new(cfg.seed);
     let sample_rng = rng.fork();
     let mut runner = Runner { out, sample_rng, n: 0 };
@@ -1498,12 +1536,15 @@ fn main() {
         j.json = !j.json;
         runner.run(&j, "corner");
     }
-    let n = if cfg.thorough { 300_000 } else { 4_000 };
+    let n = if cfg.thorough { 400_000 } else { 4_000 };
     for _ in 0..n {
         let case = gen_case(&mut rng);
         runner.run(&case, "random");
     }
     let _ = std::io::stdout().flush();
+    unsafe {
+        libc::alarm(0);
+    }
     runner.out.extra("grid", json!({"factors": "k/4, 1 <= k <= 64 (plus one factor 1e308 as last flex child, and raw zero / negative factors)", "correspondence_extents": "< 2^20 when the tree has flex factors", "oracle_extents": "0 .. usize::MAX"}));
     runner.out.finish("random view trees (depth <= 4, 0-5 flex children, all justify / align values incl. offsets, factors on the k/4 grid, margins and sizes incl. 0 and usize::MAX) through the API and through JSON, under constraints min <= max incl. 0, 1 and huge extents, both glyph settings, rendered into a window of a sentinel canvas; non-trivial = at least two views; distinct by (context, constraint, tree, surface, route)");
 }
